@@ -65,7 +65,7 @@ def apply_variant(scratch, m):
         s = open(p).read()
         if s.count(h["old"]) < 1:
             return False
-        s = s.replace(h["old"], h["new"], 1)
+        s = s.replace(h["old"], h["new"]) if h.get("all") else s.replace(h["old"], h["new"], 1)
         open(p, "w").write(s)
     return True
 
